@@ -35,6 +35,10 @@ set_option linter.unreachableTactic false
 namespace Aegean.Properties.C09
 open Gen.C09 Aegean.C09
 
+/-- closes the case analysis a clamp written in any harmless way leaves behind (`>` / `>=`, min, nested ifs) -/
+macro "close_clamp" : tactic =>
+  `(tactic| (repeat' split) <;> first | rfl | omega | (congr 1; omega) | (simp_all; done) | (exfalso; omega))
+
 /-! ## (1) conversion algebra -/
 
 /-- `sky2ang`: ra → phi, dec → theta = π/2 − dec (no swap slip, no degree/radian slip) -/
@@ -242,6 +246,84 @@ theorem skyWithinCall_shape (m : ℕ) (ra dec : ℝ) :
     skyWithinCall skyWithinScale sky2angTheta (fun _ => true) m false ra dec
       = some ⟨2 ^ m, π / 2 - dec, ra, true⟩ := by
   simp only [skyWithinCall, sky2ang, scale_false, theta_eq, Bool.and_self, if_true]
+
+/-! ## (3b) the hand-off, regenerated piece by piece
+
+The pieces below are re-translated from `add_circles`, `add_poly`, `sky_within` and `sky2ang` on every run;
+`addCircleCallOf` / `addPolyCallOf` / `skyWithinCallOf` (Model) are the fixed glue the driver runs against the code.
+The theorems say the regenerated hand-off IS the hand model used by the containment theorems, for every input. -/
+
+/-- `sky2ang` regenerated in full (copy, column swap, colatitude): (ra, dec) ↦ (π/2 − dec, ra) -/
+theorem sky2ang_regenerated (ra dec : ℝ) : (sky2angCol0 ra dec, sky2angCol1 ra dec) = (π / 2 - dec, ra) := by
+  refine Prod.ext ?_ ?_
+  · simp only [sky2angCol0, sky2angThetaHand, R.real_pi, R.real_ofNat, R.real_ofSci, Nat.cast_ofNat] <;> close_arith
+  · simp only [sky2angCol1] <;> close_arith
+
+theorem sky2angCol0_eq (ra dec : ℝ) : sky2angCol0 ra dec = π / 2 - dec :=
+  congrArg Prod.fst (sky2ang_regenerated ra dec)
+
+theorem sky2angCol1_eq (ra dec : ℝ) : sky2angCol1 ra dec = ra :=
+  congrArg Prod.snd (sky2ang_regenerated ra dec)
+
+theorem sky2ang_regenerated_eq_model (ra dec : ℝ) :
+    (sky2angCol0 ra dec, sky2angCol1 ra dec) = sky2ang sky2angTheta ra dec := by
+  rw [sky2ang_regenerated, sky2ang_convention]
+
+/-- the depth handed to `add_pixels` is the clamped depth, for `depth=None` and every `depth=d` -/
+theorem discInsertDepth_eq (m : ℕ) (depth : Option ℕ) :
+    discInsertDepth (encDepth depth).1 (encDepth depth).2 m = clampDepth m depth := by
+  cases depth <;> simp only [discInsertDepth, encDepth, clampDepth, clampHand] <;> first | grind | close_clamp
+
+/-- the nside handed to `query_disc` is 2^(clamped depth): computed AFTER the clamp -/
+theorem discNside_eq (m : ℕ) (depth : Option ℕ) :
+    discNside (encDepth depth).1 (encDepth depth).2 m = 2 ^ clampDepth m depth := by
+  cases depth <;> simp only [discNside, encDepth, clampDepth, nsideHand, clampHand] <;> first | grind | close_clamp
+
+theorem polyInsertDepth_eq (m : ℕ) (depth : Option ℕ) :
+    polyInsertDepth (encDepth depth).1 (encDepth depth).2 m = clampDepth m depth := by
+  cases depth <;> simp only [polyInsertDepth, encDepth, clampDepth, clampHand] <;> first | grind | close_clamp
+
+theorem polyNside_eq (m : ℕ) (depth : Option ℕ) :
+    polyNside (encDepth depth).1 (encDepth depth).2 m = 2 ^ clampDepth m depth := by
+  cases depth <;> simp only [polyNside, encDepth, clampDepth, nsideHand, clampHand] <;> first | grind | close_clamp
+
+/-- inclusive and nested, for discs, polygons and the membership lookup; `ang2pix` at 2^maxdepth -/
+theorem handoff_flags :
+    discInclusive = true ∧ discNest = true ∧ polyInclusive = true ∧ polyNest = true ∧ withinNest = true ∧
+      ∀ m, withinNside m = 2 ^ m := by
+  refine ⟨rfl, rfl, rfl, rfl, rfl, fun m => ?_⟩
+  simp [withinNside, withinNsideHand]
+
+/-- the regenerated `query_disc` hand-off is the hand model `addCircleCall` -/
+theorem addCircleCallOf_regenerated (m : ℕ) (depth : Option ℕ) (ra dec r : ℝ) :
+    addCircleCallOf (fun a d => (sky2angCol0 a d, sky2angCol1 a d)) discFact discNside discInsertDepth
+        discInclusive discNest m depth ra dec r
+      = addCircleCall sky2angTheta discFact m depth ra dec r := by
+  simp only [addCircleCallOf, addCircleCall, discInsertDepth_eq, discNside_eq, handoff_flags.1, handoff_flags.2.1,
+    sky2angCol0_eq, sky2angCol1_eq, sky2vec, sky2ang, theta_eq]
+
+/-- the regenerated `query_polygon` hand-off is the hand model `addPolyCall` -/
+theorem addPolyCallOf_regenerated (m : ℕ) (depth : Option ℕ) (pos : List (ℝ × ℝ)) :
+    addPolyCallOf (fun a d => (sky2angCol0 a d, sky2angCol1 a d)) polyFact polyNside polyInsertDepth
+        polyInclusive polyNest m depth pos
+      = addPolyCall sky2angTheta polyFact m depth pos := by
+  simp only [addPolyCallOf, addPolyCall, polyInsertDepth_eq, polyNside_eq, handoff_flags.2.2.1, handoff_flags.2.2.2.1,
+    sky2angCol0_eq, sky2angCol1_eq, sky2vec, sky2ang, theta_eq]
+
+/-- the regenerated `ang2pix` hand-off of `sky_within` is the hand model `skyWithinCall` -/
+theorem skyWithinCallOf_regenerated (finite : ℝ → Bool) (m : ℕ) (degin : Bool) (ra dec : ℝ) :
+    skyWithinCallOf skyWithinScale (fun a d => (sky2angCol0 a d, sky2angCol1 a d)) finite withinNside withinNest
+        m degin ra dec
+      = skyWithinCall skyWithinScale sky2angTheta finite m degin ra dec := by
+  simp only [skyWithinCallOf, skyWithinCall, sky2angCol0_eq, sky2angCol1_eq, sky2ang, theta_eq, handoff_flags.2.2.2.2.1,
+    handoff_flags.2.2.2.2.2]
+
+/-- non-vacuity: `depth = 14` on a `maxdepth = 11` region queries nside 2^11 and inserts at depth 11 -/
+example : discNside (encDepth (some 14)).1 (encDepth (some 14)).2 11 = 2 ^ 11 ∧
+    discInsertDepth (encDepth (some 14)).1 (encDepth (some 14)).2 11 = 11 ∧
+    discNside (encDepth none).1 (encDepth none).2 11 = 2 ^ 11 ∧
+    discInsertDepth (encDepth (some 7)).1 (encDepth (some 7)).2 11 = 7 := by
+  refine ⟨?_, ?_, ?_, ?_⟩ <;> simp [discNside_eq, discInsertDepth_eq, clampDepth]
 
 /-- demoting a depth-`d` pixel to depth `m` (4^(m−d) children) keeps its area -/
 theorem pixArea_demote {d m : ℕ} (h : d ≤ m) : ((4 ^ (m - d) : ℕ) : ℝ) * pixArea m = pixArea d := by
